@@ -14,7 +14,7 @@ import (
 
 func init() {
 	Registry["C18"] = Set{
-		Explanation: "Decides structural clauses of event delivery: V1 in RouteSendEvent the fan-out of a local producer's publication is reachable only through the edge on which the presented token equals the registered token (unknown event and wrong token return errors), the publication is appended to the replay buffer before the consumer list is read, each listed local consumer gets exactly one send of this very message with the publisher as sender, and each remote node gets one frame; V2 in the four subscribe functions the relation is inserted before the replay buffer is snapshotted (no publication can fall between), the consumer counter is changed by exactly +1 after a successful insert / -1 after a successful removal, and the producer is notified with MessageEventStart exactly on the counter value 1 after +1 and with MessageEventStop exactly on 0 after -1, only when notifications are enabled; V3 unregistering an event and the owner's termination both reach RouteTerminateEvent for it, and only the owner may unregister. Added while probing: V1 every element of the subscriber list is either sent to locally or its node recorded in the set the frame loop ranges over. V4 the subscriber counter follows the relation set: the process release function counts a terminating subscriber out of the events it was subscribed to (both lists of CleanupConsumer), with MessageEventStop at zero. V5 = C06.G7 for events: a failed RegisterEvent leaves no entry behind, so the termination of the loser does not unregister the owner's event. V6 the local fan-out sends to a pid only behind the miss edge of a lookup in a set of served pids which it then enters (the consumer list holds a process once per relation). V7 every operation on an event's replay buffer — the push and the whole walk of a new subscriber (Item, Value, Next) — is made while that event's buffer lock is held. V8 the termination notice of an event uses the same kind of link/queue selector as its publications (open finding F-BI: today it travels round-robin and overtakes them). V9 where the subscribers of a lost node are counted out from the consumer lists, no set-membership test stands between the list element and the count (the counter counts relations, not processes).",
+		Explanation: "Decides structural clauses of event delivery: V1 in RouteSendEvent the fan-out of a local producer's publication is reachable only through the edge on which the presented token equals the registered token (unknown event and wrong token return errors), the publication is appended to the replay buffer before the consumer list is read, each listed local consumer gets exactly one send of this very message with the publisher as sender, and each remote node gets one frame; V2 in the four subscribe functions the relation is inserted before the replay buffer is snapshotted (no publication can fall between), the consumer counter is changed by exactly +1 after a successful insert / -1 after a successful removal, and the producer is notified with MessageEventStart exactly on the counter value 1 after +1 and with MessageEventStop exactly on 0 after -1, only when notifications are enabled; V3 unregistering an event and the owner's termination both reach RouteTerminateEvent for it, and only the owner may unregister. Added while probing: V1 every element of the subscriber list is either sent to locally or its node recorded in the set the frame loop ranges over. V4 the subscriber counter follows the relation set: the process release function counts a terminating subscriber out of the events it was subscribed to (both lists of CleanupConsumer), with MessageEventStop at zero. V5 = C06.G7 for events: a failed RegisterEvent leaves no entry behind, so the termination of the loser does not unregister the owner's event. V6 the local fan-out sends to a pid only behind the miss edge of a lookup in a set of served pids which it then enters (the consumer list holds a process once per relation). V7 every operation on an event's replay buffer — the push and the whole walk of a new subscriber (Item, Value, Next) — is made while that event's buffer lock is held. V8 the termination notice of an event uses the same kind of link/queue selector as its publications (open finding F-BI: today it travels round-robin and overtakes them). V9 where the subscribers of a lost node are counted out from the consumer lists, no set-membership test stands between the list element and the count (the counter counts relations, not processes). V10 = C04.L12 for events: a remote subscription is recorded before the request is sent (publications follow the answer at once). V11 on a buffered event the subscriber's insert + snapshot and the publisher's store + read of the subscriber list are each inside ONE critical section of the event's buffer lock (Lock dominates the first step, no Unlock between the two): a publication is either in the snapshot or sent to the new subscriber, never both and never neither.",
 		NotDecided: []string{
 			"per-publisher order and exactly-once under the subscribe-while-publishing window (consumer list is read without a lock against subscription)",
 			"delivery of each message (C02), remote framing (C12)",
@@ -42,6 +42,7 @@ func runC18(p *load.Program, r *core.Report) {
 	c18BufferLocked(a, r)
 	c18TerminationBehindPublications(a.P, r)
 	c18CountOutPerRelation(a.P, r)
+	remoteRelationFirst(a.P, r, "C18.V10 remote-subscription-recorded-before-the-request", "C18.V10", 2, func(m string) bool { return strings.HasSuffix(m, "Event") })
 	if send != nil {
 		c18ServedOnce(a, r, send)
 	}
@@ -54,12 +55,36 @@ func runC18(p *load.Program, r *core.Report) {
 		tokenPar := paramOfType(send, "gen.Ref", 0)
 		msgPar := paramOfType(send, "gen.MessageEvent", 0)
 		fromPar := paramOfType(send, "gen.PID", 0)
+		// the reads of the subscriber list (one on the path that stores the message into the
+		// replay buffer — made under the buffer lock — and one on the path without a buffer)
 		var fan ssa.Instruction
+		fans := map[ssa.Instruction]bool{}
 		eachInstr(send, func(in ssa.Instruction) {
 			if callsNamed(in, "GetConsumersForTarget") {
 				fan = in
+				fans[in] = true
 			}
 		})
+		var isFanValue func(v ssa.Value, d int) bool
+		isFanValue = func(v ssa.Value, d int) bool {
+			if in, ok := v.(ssa.Instruction); ok && fans[in] {
+				return true
+			}
+			if ph, ok := v.(*ssa.Phi); ok && d < 4 {
+				n := 0
+				for _, e := range ph.Edges {
+					if c, isC := e.(*ssa.Const); isC && c.IsNil() {
+						continue
+					}
+					if !isFanValue(e, d+1) {
+						return false
+					}
+					n++
+				}
+				return n > 0
+			}
+			return false
+		}
 		// token comparison
 		var cmp *ssa.BinOp
 		eachInstr(send, func(in ssa.Instruction) {
@@ -110,7 +135,7 @@ func runC18(p *load.Program, r *core.Report) {
 				for _, e := range eq {
 					cut[e] = true
 				}
-				if reachAvoidEdges(st, cut, nil, func(in ssa.Instruction) bool { return in == fan }) != nil {
+				if reachAvoidEdges(st, cut, nil, func(in ssa.Instruction) bool { return fans[in] }) != nil {
 					probs = append(probs, "from the local-producer branch the fan-out is reachable without passing the token-equal edge")
 				}
 			}
@@ -126,12 +151,12 @@ func runC18(p *load.Program, r *core.Report) {
 				}
 			})
 			for _, e := range ne {
-				for _, ret := range walkAvoid([]Point{{e.To(), 0}}, func(in ssa.Instruction) bool { return in == fan }, isReturn) {
+				for _, ret := range walkAvoid([]Point{{e.To(), 0}}, func(in ssa.Instruction) bool { return fans[in] }, isReturn) {
 					if errKind(ret.(*ssa.Return).Results[0]) == "nil" {
 						probs = append(probs, "a wrong token returns nil")
 					}
 				}
-				if reaches([]Point{{e.To(), 0}}, nil, func(in ssa.Instruction) bool { return in == fan }) != nil {
+				if reaches([]Point{{e.To(), 0}}, nil, func(in ssa.Instruction) bool { return fans[in] }) != nil {
 					probs = append(probs, "the wrong-token edge still reaches the fan-out")
 				}
 			}
@@ -156,12 +181,53 @@ func runC18(p *load.Program, r *core.Report) {
 		switch {
 		case push == nil || fan == nil:
 			r.Bad(rule, key2, fn, p.Pos(send.Pos()), inst2, "no push into the event's replay buffer: late subscribers get no history")
-		case instrReachable(fan, push):
+		case func() bool {
+			for f := range fans {
+				if instrReachable(f, push) {
+					return true
+				}
+			}
+			// and on the path that buffers, the list is read after the push
+			after := false
+			for f := range fans {
+				if instrReachable(push, f) {
+					after = true
+				}
+			}
+			return !after
+		}():
 			r.Bad(rule, key2, fn, p.Pos(push.Pos()), inst2, "the buffer is filled after the subscriber list was read: a process subscribing in between sees the message neither in the replay nor live")
 		case !isParamValue(callCommon(push).Args[0], msgPar):
 			r.Bad(rule, key2, fn, p.Pos(push.Pos()), inst2, "something else than the published message is buffered")
 		default:
 			r.OK(rule, key2, fn, p.Pos(push.Pos()), inst2, "Push(message) precedes GetConsumersForTarget")
+		}
+		if push != nil {
+			// V11: the list is read inside the critical section the message is stored in
+			key11 := "C18.V11|" + fn + "|store-and-list"
+			inst11 := "the message is stored into the replay buffer and the subscriber list is read inside one critical section of the event's buffer lock"
+			var after ssa.Instruction
+			for x := range fans {
+				if instrReachable(push, x) {
+					after = x
+				}
+			}
+			locked, split := false, false
+			eachInstr(send, func(in ssa.Instruction) {
+				if l := mutexOpOf(in); l != nil && l.field == "lastLock" && after != nil {
+					if l.kind == "Lock" && instrDominates(in, push) {
+						locked = true
+					}
+					if l.kind == "Unlock" && !l.deferred && instrReachable(push, in) && instrReachable(in, after) {
+						split = true
+					}
+				}
+			})
+			if after != nil && locked && !split {
+				r.OK("C18.V11 subscribe-and-publish-atomic", key11, fn, p.Pos(push.Pos()), inst11, "Lock dominates the push; no Unlock between the push and the read of the list")
+			} else {
+				r.Bad("C18.V11 subscribe-and-publish-atomic", key11, fn, p.Pos(push.Pos()), inst11, "the list is read after the lock was given up: a process that subscribes in between takes the message with its snapshot and is in the list as well — the message is delivered twice")
+			}
 		}
 		// one send per local consumer with this message and publisher; one frame per remote node
 		key3 := "C18.V1|" + fn + "|one-send-per-consumer"
@@ -218,7 +284,7 @@ func runC18(p *load.Program, r *core.Report) {
 		if fan != nil && len(sends) == 1 && len(frames) == 1 {
 			var elem ssa.Instruction
 			eachInstr(send, func(in ssa.Instruction) {
-				if ia, ok := in.(*ssa.IndexAddr); ok && ia.X == fan.(ssa.Value) {
+				if ia, ok := in.(*ssa.IndexAddr); ok && isFanValue(ia.X, 0) {
 					elem = in
 				}
 			})
@@ -336,15 +402,23 @@ func runC18(p *load.Program, r *core.Report) {
 	// ---- V2
 	rule2 := "C18.V2 subscribe-bookkeeping"
 	r.Floor(rule2, 4)
+	r.Floor("C18.V11 subscribe-and-publish-atomic", 3)
 	for _, f := range routeFuncs(a, "RouteLinkEvent", "RouteMonitorEvent", "RouteUnlinkEvent", "RouteDemonitorEvent") {
 		fn := fname(f)
 		sub := strings.HasPrefix(f.Name(), "RouteLink") || strings.HasPrefix(f.Name(), "RouteMonitor")
 		key := "C18.V2|" + f.Name()
 		var probs []string
+		// the relation change of the LOCAL branch (the one the counter update follows): for a
+		// subscription there can be two insert sites (with and without a replay buffer); the
+		// remote branch has its own (C18.V10) and roll-backs are removals
 		var rel ssa.Instruction
+		var rels []ssa.Instruction
 		eachInstr(f, func(in ssa.Instruction) {
-			if callsNamed(in, "AddLink", "AddMonitor", "RemoveLink", "RemoveMonitor") && rel == nil {
-				rel = in
+			if sub && callsNamed(in, "AddLink", "AddMonitor") || !sub && callsNamed(in, "RemoveLink", "RemoveMonitor") {
+				rels = append(rels, in)
+				if rel == nil {
+					rel = in
+				}
 			}
 		})
 		var add *ssa.Call
@@ -367,8 +441,14 @@ func runC18(p *load.Program, r *core.Report) {
 				probs = append(probs, fmt.Sprintf("the consumer counter is changed by %d (expected %+d)", d, wantDelta))
 			}
 			// counter update only after the relation change succeeded (nil error edge)
-			if rc, ok := rel.(*ssa.Call); ok {
-				isNil, _, _ := nilEdges(rc)
+			if _, ok := rel.(*ssa.Call); ok {
+				var isNil []Edge
+				for _, x := range rels {
+					if rc, ok := x.(*ssa.Call); ok && instrReachable(x, add) {
+						e, _, _ := nilEdges(rc)
+						isNil = append(isNil, e...)
+					}
+				}
 				if len(isNil) == 0 || !edgesDominate(isNil, add) {
 					probs = append(probs, "the counter is updated even when the relation change failed (duplicate subscribe / unknown unsubscribe): the producer's start/stop notifications get out of step")
 				}
@@ -462,8 +542,37 @@ func runC18(p *load.Program, r *core.Report) {
 				})
 				if snap == nil {
 					probs = append(probs, "the replay buffer is not handed to the new subscriber")
-				} else if !instrDominates(rel, snap) {
-					probs = append(probs, "the replay buffer is snapshotted before the relation is inserted: a message published in between is neither in the snapshot nor delivered live")
+				} else {
+					var ins ssa.Instruction
+					for _, x := range rels {
+						if instrDominates(x, snap) {
+							ins = x
+						}
+					}
+					if ins == nil {
+						probs = append(probs, "the replay buffer is snapshotted before the relation is inserted: a message published in between is neither in the snapshot nor delivered live")
+					} else {
+						// V11: insert and snapshot are one critical section of the buffer lock
+						key11 := "C18.V11|" + f.Name() + "|insert-and-snapshot"
+						inst11 := "the relation is inserted and the replay buffer is snapshotted inside one critical section of the event's buffer lock"
+						locked := false
+						split := false
+						eachInstr(f, func(in ssa.Instruction) {
+							if l := mutexOpOf(in); l != nil && l.field == "lastLock" {
+								if l.kind == "Lock" && instrDominates(in, ins) {
+									locked = true
+								}
+								if l.kind == "Unlock" && !l.deferred && instrReachable(ins, in) && instrReachable(in, snap) {
+									split = true
+								}
+							}
+						})
+						if locked && !split {
+							r.OK("C18.V11 subscribe-and-publish-atomic", key11, fn, p.Pos(ins.Pos()), inst11, "Lock dominates the insert; no Unlock between the insert and the snapshot")
+						} else {
+							r.Bad("C18.V11 subscribe-and-publish-atomic", key11, fn, p.Pos(ins.Pos()), inst11, "the insert is outside the critical section of the snapshot: a message published between the two is in the snapshot AND sent to the new subscriber — delivered twice")
+						}
+					}
 				}
 			}
 		}
